@@ -373,3 +373,47 @@ def validate_segmentation(password, sections, tally, threshold=5, min_len=4, max
         else:
             i += 1
     return bad
+
+# ------------------------------------------------------------------ C19: reference reader of a training file
+def valid_password(s):
+    if len(s) == 0:
+        return False
+    for c in s:
+        o = ord(c)
+        if o < 0x20 or o in (0x85, 0x2028, 0x2029):
+            return False
+    return True
+
+def reference_reader(data, encoding, prefixcount=False):
+    """LF-only line splitting; returns (yielded sequence, num_passwords, num_encoding_errors)."""
+    text = data.decode(encoding, errors='surrogateescape')
+    lines = text.split('\n')
+    if lines and lines[-1] == '':
+        lines.pop()
+    out, npw, nerr = [], 0, 0
+    for line in lines:
+        clean = line.rstrip('\r\n')
+        n = 1
+        if prefixcount:
+            parts = clean.lstrip().split(' ')
+            try:
+                n = int(parts[0])
+            except ValueError:
+                continue
+            clean = ' '.join(parts[1:])
+        if clean.startswith('$HEX[') and clean.endswith(']'):
+            try:
+                clean = bytes.fromhex(clean[5:-1]).decode(encoding)
+            except Exception:
+                nerr += n
+                continue
+        try:
+            clean.encode(encoding)
+        except UnicodeEncodeError:
+            nerr += n
+            continue
+        if not valid_password(clean):
+            continue
+        npw += n
+        out.extend([clean] * n)
+    return out, npw, nerr
